@@ -604,9 +604,21 @@ func (r *run) step(st *simkit.Step) {
 			r.checkAll("RevertToSnapshot(0)", true)
 		}
 	case "commit":
+		putsBefore := c.Faults["put_error"]
+		if st.Fault == "put_error" {
+			// disk full during Commit: every write from the n-th one on fails. Commit has already emptied the journal
+			// when it fails; the block processor's cleanup is RevertToSnapshot(0), which must give the last committed state
+			r.disk.Disarm()
+			r.disk.ArmFrom("put_error", st.FaultAt)
+		}
 		rh, err := adb.Commit()
+		r.disk.Disarm()
 		c.Eventf("%d commit -> %x err=%v", c.CurStep, rh, err != nil)
 		if err != nil {
+			if c.Faults["put_error"] > putsBefore {
+				r.failedStep("Commit")
+				return
+			}
 			c.Violate("C06", "operation-fails-without-fault", "Commit", "Commit failed with no fault: %v", err)
 			return
 		}
